@@ -686,6 +686,25 @@ class Evaluator:
             if isinstance(a, Cls) and isinstance(b, Cls):
                 return a.name == b.name or b.name == "object" or (a.name, b.name) in (("bool", "int"),)
             raise AnalysisError(f"absint: issubclass at {where}")
+        if name == "hash":
+            v = args[0]
+            if isinstance(v, Node):
+                # Python: the first class of the MRO that defines __eq__ or __hash__ decides; __eq__ alone makes it unhashable
+                for k in self.prog.mro(v.info):
+                    if "__hash__" in k.methods:
+                        return self.call_func(FuncVal(k.methods["__hash__"][0], v), [], {}, where)
+                    if "__hash__" in k.assigns:
+                        raise PyRaise("TypeError", f"{where} (unhashable {v.info.name})")
+                    if "__eq__" in k.methods:
+                        raise PyRaise("TypeError", f"{where} (unhashable {v.info.name}: __eq__ without __hash__)")
+                return id(v)
+            if isinstance(v, Cls):
+                return hash(("cls", v.name))
+            if isinstance(v, (ModelDict, dict, list, OSet)):
+                raise PyRaise("TypeError", f"{where} (unhashable)")
+            if isinstance(v, tuple):
+                return hash(tuple(self.call_builtin("hash", [x], {}, where) for x in v))
+            return hash(v)
         if name == "isclass":
             return isinstance(args[0], Cls)
         if name in ("getattr", "hasattr") and len(args) >= 2 and isinstance(args[1], str):
